@@ -181,7 +181,27 @@ func runC20(c *Ctx) {
 			"the reader is positioned only when a probe's timestamp equals the target", "the reader can be positioned although no probe matched the target timestamp", traceOf(p, offP)...)
 	}
 	// multi-file mapping
-	rs := p.Fn("(*querylog.qLogReader).seekTS")
+	// the multi-file seek is the function reachable from (*qLogReader).seekTS (itself or a helper it delegates to)
+	// that asks the single files
+	var rs *ssa.Function
+	if top := p.Fn("(*querylog.qLogReader).seekTS"); top != nil {
+		seen := map[*ssa.Function]bool{}
+		var find func(fn *ssa.Function, depth int)
+		find = func(fn *ssa.Function, depth int) {
+			if fn == nil || seen[fn] || depth > 2 || rs != nil || fn.Blocks == nil || core.PkgOf(fn) != "querylog" {
+				return
+			}
+			seen[fn] = true
+			if len(core.CallsTo(fn, "(*querylog.qLogFile).seekTS")) > 0 {
+				rs = fn
+				return
+			}
+			for _, call := range core.Calls(fn) {
+				find(call.Common.StaticCallee(), depth+1)
+			}
+		}
+		find(top, 0)
+	}
 	if rs == nil {
 		r.Undecided("C20-D2", "qLogReader.seekTS", "-", "anchor not found")
 		return
